@@ -244,11 +244,20 @@ class World(BaseWorld):
         if self.nops >= c["n_ops"]:
             return None
         models = [i for i, s in enumerate(self.pool) if s.is_model]
+        hint, self.hint = getattr(self, "hint", None), None
+        if hint is not None and rng.random() < 0.8:
+            # follow-up that makes aliasing created by the previous op observable
+            kind_, slots, rel = hint
+            idx = rng.choice(slots)
+            if idx < len(self.pool) and self.pool[idx].t in CONSTRAINED:
+                l = rng.choice(self.labels)
+                return {"op": "cons", "a": idx, "rel": rel, "P": {"terms": [[enc_key((l,)), 1], [[], rng.choice([-1, 0])]]}, "lam": rng.choice([0, 1]),
+                        "log_trick": True, "bounds": "none"}
         if not models or (len(self.pool) < 2 and rng.random() < 0.7):
             return self.gen_new(rng)
         w = c["weights"]
         table = [("new", w["new"]), ("bin", w["arith"]), ("ibin", w["arith"]), ("pow", w["arith"] * 0.4), ("neg", w["arith"] * 0.3),
-                 ("div", w["arith"] * 0.3), ("item", w["edit"]), ("update", w["edit"] * 0.3), ("clear", w["edit"] * 0.1),
+                 ("div", w["arith"] * 0.3), ("item", w["edit"]), ("update", w["edit"] * 0.3 + w.get("update", 0)), ("clear", w["edit"] * 0.1),
                  ("refresh", w["refresh"]), ("value", w["value"]), ("copy", w["copy"]), ("handout", w["handout"]),
                  ("pure", w["pure"]), ("cons", w["cons"]), ("enum", w["enum"])]
         kind = choose_weighted(rng, table)
@@ -306,9 +315,12 @@ class World(BaseWorld):
         if a is None:
             return None
         A = self.pool[a]
-        k = rng.choice([1, 2, 2, 3])
-        if len(A.shadow.t) ** k > 300 or A.shadow.degree() * k > MAX_DEG + 2:
-            k = 1
+        k = rng.choice([1, 2, 2, 3, 3, 4, 5, 6, 7, 8, 10, 12])
+        nv = len(A.shadow.variables())
+        if nv > 4 or (A.t in DEG2 and k > 3 and A.shadow.degree() > 1) or (A.t not in DEG2 and min(A.shadow.degree() * k, nv) > MAX_DEG + 1):
+            k = rng.choice([1, 2])
+        if k > 3:
+            self_probe = True
         return {"op": "pow", "a": a, "k": k, "inplace": rng.random() < 0.4}
 
     def gen_neg(self, rng):
@@ -343,7 +355,16 @@ class World(BaseWorld):
 
     def gen_update(self, rng):
         a = self.pick(rng, lambda s: s.is_model)
-        return None if a is None else {"op": "update", "a": a, "terms": self.gen_terms(rng, self.pool[a].t, n=rng.randint(0, 3))}
+        if a is None:
+            return None
+        if rng.random() < 0.5:
+            if self.pool[a].t in CONSTRAINED and rng.random() < 0.7:
+                b = self.pick(rng, lambda s: s.t in CONSTRAINED and s.cons is not None and s.cons.items)
+            else:
+                b = self.pick(rng, lambda s: s.t != "num")
+            if b is not None and b != a:
+                return {"op": "update", "a": a, "src": b}
+        return {"op": "update", "a": a, "terms": self.gen_terms(rng, self.pool[a].t, n=rng.randint(0, 3))}
 
     def gen_clear(self, rng):
         a = self.pick(rng, lambda s: s.is_model)
@@ -726,9 +747,12 @@ class World(BaseWorld):
         if not A.is_model:
             return "skipped"
         k = op["k"]
-        if len(A.shadow.t) ** k > 1500:
+        nv = len(A.shadow.variables())
+        if min(len(A.shadow.t) ** k, 1 << min(nv, 20)) * len(A.shadow.t) * k > 6000:
             return "skipped-large"
-        if not exact_ok(*([A.shadow] * k), product=True):
+        if k > 3:
+            self.probe("exponent_gt_3")
+        if (maxabs(A.shadow) * max(len(A.shadow.t), 1)) ** k >= LIMIT:
             return "skipped-inexact"
         required, permitted, want = self.pow_status(A, k)
         if not exact_ok(want):
@@ -889,13 +913,27 @@ class World(BaseWorld):
         A = self.pool[a]
         if not A.is_model:
             return "skipped"
-        terms = [(dec_key(k), v) for k, v in op["terms"]]
-        d = {}
-        for k, v in terms:
-            d[k] = v
-        if A.t in DEG2 and self.raw_big(None, d.keys()):
+        if "src" in op:
+            b = op["src"] % len(self.pool)
+            B = self.pool[b]
+            if B.t == "num" or b == a:
+                return "skipped"
+            d = B.obj
+            items = list(B.obj.items()) if B.t == "dict" else list(dict.items(B.obj))
+            if A.t in MATRIX and any((not isinstance(l, int)) or l < 0 for k, _ in items for l in k):
+                return "skipped"
+            self.probe("update_with_pool_object")
+            self.interesting = True
+        else:
+            B = None
+            terms = [(dec_key(k), v) for k, v in op["terms"]]
+            d = {}
+            for k, v in terms:
+                d[k] = v
+            items = list(d.items())
+        if A.t in DEG2 and self.raw_big(None, [k for k, _ in items]):
             return "skipped"
-        where = "%s.update(%r)" % (A.t, d)
+        where = "%s.update(%s)" % (A.t, "slot %s" % B.t if B is not None else repr(d))
         try:
             A.obj.update(d)
         except Exception as e:
@@ -904,8 +942,16 @@ class World(BaseWorld):
             self.fail("unexpected_exception", "%s: %s: %s" % (where, type(e).__name__, e))
             return "exc"
         self.check_untouched({a}, where)
-        for k, v in d.items():
+        # update assigns: later occurrences of the same (squashed) monomial overwrite earlier ones
+        for k, v in items:
             A.shadow.set_term(k, v)
+        if A.t in CONSTRAINED:
+            A.cons = self.read_constraints(A.obj)
+            if B is not None and B.is_model and (self.anc_vars(A.shadow) - A.issued):
+                A.foreign = True
+            if B is not None and B.t in CONSTRAINED and B.cons.items:
+                self.hint = ("cons", [a, op["src"] % len(self.pool)], B.cons.items[-1][0])
+                self.probe("update_merging_constraints")
         self.check_written(a, where)
         return "ok"
 
@@ -1090,8 +1136,8 @@ def gen_cfg(rng, prop, tier):
         w.update(edit=rng.choice([3, 6]), refresh=rng.choice([0.5, 1.5]), enum=rng.choice([1, 2, 3]), cons=rng.choice([0.3, 1, 2]),
                  copy=rng.choice([0.5, 1.5]), value=0.2, handout=0, pure=rng.choice([0, 0.2]))
     elif prop == "C19":
-        w.update(handout=rng.choice([2, 4]), pure=rng.choice([2, 4]), copy=rng.choice([1, 3]), cons=rng.choice([0.5, 1.5]), value=0.3,
-                 arith=rng.choice([0.5, 2]))
+        w.update(handout=rng.choice([2, 4]), pure=rng.choice([2, 4]), copy=rng.choice([1, 3]), cons=rng.choice([0.5, 1.5, 3]), value=0.3,
+                 arith=rng.choice([0.5, 2]), update=rng.choice([0, 1, 2]))
     cfg = {
         "kind": rng.choice([BOOL, SPIN]),
         "labels": labels, "alphabet": [enc_label(l) for l in alpha],
